@@ -9,7 +9,10 @@ package main
 // different names, so a call tree over contracts c0..c3 is pure data.
 
 import (
+	"fmt"
+
 	"github.com/nspcc-dev/neo-go/pkg/core/interop/interopnames"
+	"github.com/nspcc-dev/neo-go/pkg/vm/emit"
 	"github.com/nspcc-dev/neo-go/pkg/smartcontract"
 	"github.com/nspcc-dev/neo-go/pkg/smartcontract/manifest"
 	"github.com/nspcc-dev/neo-go/pkg/smartcontract/nef"
@@ -30,6 +33,8 @@ const (
 	nLocal
 	nNative // [op, hash, method, flags, args]
 	nIf     // [op, key, body]: run body if the key is present in the executing contract's storage
+	nCallT   // [op, token, body]: CALLT <token> with the single argument `body` (method token of another interpreter's `run`)
+	nNativeT // [op, token, args]: CALLT <token> with the arguments unpacked (method token of a native method)
 	nOps
 )
 
@@ -54,9 +59,15 @@ type interpCode struct {
 	script     []byte
 	offRun     int
 	offPayment int
+	offVerify  int
+	tokens     []nef.MethodToken
 }
 
-func buildInterp() interpCode {
+// buildInterp assembles the interpreter; ntok = number of method tokens of the NEF it will be put into
+// (one CALLT stub per token: the operand of CALLT is static).
+// reward: the program (encoded tree) run when the contract receives a GAS reward — onNEP17Payment(null, amount,
+// null), the mint of a deferred NEO reward — or nil.
+func buildInterp(ntok int, reward []any) interpCode {
 	a := newAsm()
 	ldNode := func() { a.ops(opcode.LDLOC1) }
 	ldInl := func() { a.ops(opcode.LDLOC2) }
@@ -85,14 +96,14 @@ func buildInterp() interpCode {
 
 	a.label("run")
 	offRun := a.pos()
-	a.initslot(3, 1)
+	a.initslot(4, 1)
 	a.ops(opcode.PUSH0, opcode.STLOC0)
 	a.label("loop")
 	a.ops(opcode.LDLOC0, opcode.LDARG0, opcode.SIZE, opcode.GE)
 	a.jmp(opcode.JMPIFL, "done")
 	a.ops(opcode.LDARG0, opcode.LDLOC0, opcode.PICKITEM, opcode.STLOC1)
 	a.ops(opcode.LDLOC0, opcode.INC, opcode.STLOC0)
-	names := []string{"h_put", "h_del", "h_notify", "h_call", "h_tryc", "h_tryf", "h_trycf", "h_throw", "h_abort", "h_local", "h_native", "h_if"}
+	names := []string{"h_put", "h_del", "h_notify", "h_call", "h_tryc", "h_tryf", "h_trycf", "h_throw", "h_abort", "h_local", "h_native", "h_if", "h_callt", "h_nativet"}
 	for i, n := range names {
 		ldNode()
 		a.pick(0)
@@ -120,14 +131,21 @@ func buildInterp() interpCode {
 	a.syscall(interopnames.SystemStorageDelete)
 	a.jmp(opcode.JMPL, "loop")
 
-	a.label("h_notify")
+	a.label("h_notify") // [op, number, repetitions]
+	ldNode()
+	a.pick(2)
+	a.ops(opcode.STLOC3)
+	a.label("ntf_loop")
+	a.ops(opcode.LDLOC3, opcode.PUSH0, opcode.LE)
+	a.jmp(opcode.JMPIFL, "loop")
 	ldNode()
 	a.pick(1)
 	a.int(1)
 	a.ops(opcode.PACK)
 	a.str(eventName)
 	a.syscall(interopnames.SystemRuntimeNotify)
-	a.jmp(opcode.JMPL, "loop")
+	a.ops(opcode.LDLOC3, opcode.DEC, opcode.STLOC3)
+	a.jmp(opcode.JMPL, "ntf_loop")
 
 	a.label("h_call")
 	emitCall(a, ldNode)
@@ -201,6 +219,31 @@ func buildInterp() interpCode {
 	runList(2)
 	a.jmp(opcode.JMPL, "loop")
 
+	// static calls through method tokens: the argument(s) first, then the stub of the token
+	a.label("h_callt")
+	ldNode()
+	a.pick(2)
+	a.jmp(opcode.JMPL, "tok_dispatch")
+	a.label("h_nativet")
+	ldNode()
+	a.pick(2)
+	a.ops(opcode.UNPACK, opcode.DROP) // args[0] on top, as LoadToken pops them
+	a.label("tok_dispatch")
+	for k := 0; k < ntok; k++ {
+		ldNode()
+		a.pick(1)
+		a.int(int64(k))
+		a.ops(opcode.NUMEQUAL)
+		a.jmp(opcode.JMPIFL, fmt.Sprintf("tok%d", k))
+	}
+	a.ops(opcode.ABORT)
+	for k := 0; k < ntok; k++ {
+		a.label(fmt.Sprintf("tok%d", k))
+		emit.Instruction(a.w.BinWriter, opcode.CALLT, []byte{byte(k), byte(k >> 8)})
+		a.ops(opcode.CLEAR)
+		a.jmp(opcode.JMPL, "loop")
+	}
+
 	// onNEP17Payment(from, amount, data)
 	offPay := a.pos()
 	a.initslot(0, 3)
@@ -209,17 +252,42 @@ func buildInterp() interpCode {
 	a.ops(opcode.LDARG2)
 	a.jmp(opcode.CALLL, "run")
 	a.ops(opcode.DROP)
-	a.label("pay_ret")
+	a.ops(opcode.RET)
+	a.label("pay_ret") // data == null
+	if reward != nil {
+		a.ops(opcode.LDARG0, opcode.ISNULL)
+		a.jmp(opcode.JMPIFNOTL, "pay_end")
+		emitAny(a, reward)
+		a.jmp(opcode.CALLL, "run")
+		a.ops(opcode.DROP)
+		a.label("pay_end")
+	}
 	a.ops(opcode.RET)
 
-	return interpCode{script: a.finish(), offRun: offRun, offPayment: offPay}
+	// verify(): true — the contract can be the sender of a (setup) transaction
+	offVerify := a.pos()
+	a.ops(opcode.PUSHT, opcode.RET)
+
+	return interpCode{script: a.finish(), offRun: offRun, offPayment: offPay, offVerify: offVerify}
 }
 
-func interpContract(name string, code interpCode) (*nef.File, *manifest.Manifest) {
-	ne, err := nef.NewFile(code.script)
+// nefVariant: the interpreter script followed by v NOPs (never executed): same behaviour, another checksum.
+func nefVariant(code interpCode, v int) *nef.File {
+	sc := append([]byte{}, code.script...)
+	for i := 0; i < v; i++ {
+		sc = append(sc, byte(opcode.NOP))
+	}
+	ne, err := nef.NewFile(sc)
 	if err != nil {
 		panic(err)
 	}
+	ne.Tokens = code.tokens
+	ne.Checksum = ne.CalculateChecksum()
+	return ne
+}
+
+func interpContract(name string, code interpCode) (*nef.File, *manifest.Manifest) {
+	ne := nefVariant(code, 0)
 	m := manifest.DefaultManifest(name)
 	m.ABI.Methods = []manifest.Method{
 		{Name: "run", Offset: code.offRun, ReturnType: smartcontract.IntegerType,
@@ -229,6 +297,7 @@ func interpContract(name string, code interpCode) (*nef.File, *manifest.Manifest
 				manifest.NewParameter("from", smartcontract.AnyType),
 				manifest.NewParameter("amount", smartcontract.IntegerType),
 				manifest.NewParameter("data", smartcontract.AnyType)}},
+		{Name: "verify", Offset: code.offVerify, ReturnType: smartcontract.BoolType, Parameters: []manifest.Parameter{}, Safe: true},
 	}
 	m.ABI.Events = []manifest.Event{{Name: eventName, Parameters: []manifest.Parameter{manifest.NewParameter("n", smartcontract.IntegerType)}}}
 	m.Permissions = []manifest.Permission{*manifest.NewPermission(manifest.PermissionWildcard)}
